@@ -233,6 +233,33 @@ def spec_failures(case, line):
                 bad.append('C12.timeout-not-at-the-deadline')
         if cl == 'NoConnection' and i in wire_of:
             bad.append('C13.no-connection-for-a-transmitted-request')
+    # C13: fail fast. Connected intervals [lN@t, e..@t] are read off the log; a request submitted strictly outside all of
+    # them (boundaries excluded: same-instant order is not an observable) completes at once with NoConnection (Shutdown if the task is gone)
+    intervals = []
+    for t in p['task']:
+        if t.startswith('lN@'):
+            intervals.append([int(t[3:]), None])
+        elif t[0] == 'e' and '@' in t and intervals and intervals[-1][1] is None:
+            intervals[-1][1] = int(t.split('@')[1])
+    comp_of = {c[0]: c for c in p['comp']}
+    now = 0
+    live = cfg['handles']
+    aborted = False
+    for st in script:
+        if st[0] == 'T':
+            now += st[1]
+        elif st[0] == 'H':
+            live = max(0, live - 1)
+        elif st[0] == 'S' and live > 0 and len(set(submitted)) == len(submitted):
+            if not any(a <= now and (b is None or now <= b) for a, b in intervals):
+                c = comp_of.get(st[1])
+                if c is None or c[2] != now or c[1] not in ('NoConnection', 'Shutdown'):
+                    bad.append('C13.request-not-failed-at-once-while-not-connected')
+    # C10: Shutdown is only reported when the task is gone, or when the submitting try_send itself was rejected
+    if not p['done']:
+        for i, c, t in p['comp']:
+            if c == 'Shutdown' and kinds.get(i, (0, 0, 0, 0, 'x'))[4] != 'x':
+                bad.append('C10.shutdown-reported-while-the-task-is-alive')
     # C12: consecutive-timeout limit, per connection
     for outs, end in session_outcomes(case, line):
         run = 0
@@ -264,7 +291,7 @@ def session_outcomes(case, line):
     cur = None
     sess_of = {}
     for t in p['task']:
-        if t == 'lN':
+        if t.startswith('lN'):
             cur = {'ids': [], 'end': None}
             sessions.append(cur)
         elif t[0] == 'w' and cur is not None:
@@ -272,7 +299,7 @@ def session_outcomes(case, line):
             cur['ids'].append(i)
             sess_of[i] = len(sessions) - 1
         elif t[0] == 'e' and cur is not None:
-            cur['end'] = t[1:]
+            cur['end'] = t[1:].split('@')[0]
             cur = None
     submitted = [s[1] for s in script if s[0] == 'S']
     fmt_failed = {i for i, c in comp.items() if c in ('BadRequest', 'Internal')}
@@ -562,7 +589,7 @@ def classify(case, line):
         cl.add('result:' + c[1])
     for t in p['task']:
         if t[0] == 'e':
-            cl.add('end:' + t[1:])
+            cl.add('end:' + t[1:].split('@')[0])
         if t[0] == 'l':
             cl.add('listener:' + t[:2])
         if t[0] == 'x':
